@@ -145,6 +145,57 @@ harnesses! {
     fn c04_t_kmer_int_dna_k31 [4] { kmer_int::<Dna, 31>(&oracle::DNA); }
     fn c04_t_kmer_int_amino_k3 [4] { kmer_int::<Amino, 3>(&oracle::AMINO); }
     fn c04_t_kmer_int_miupac_k12 [4] { kmer_int::<masked::Iupac, 12>(&oracle::MIUPAC); }
+    fn c04_t_kmer_int_dna_k2 [4] { kmer_int::<Dna, 2>(&oracle::DNA); }
+    fn c04_t_kmer_int_dna_k3 [4] { kmer_int::<Dna, 3>(&oracle::DNA); }
+    fn c04_t_kmer_int_dna_k4 [4] { kmer_int::<Dna, 4>(&oracle::DNA); }
+    fn c04_t_kmer_int_dna_k6 [4] { kmer_int::<Dna, 6>(&oracle::DNA); }
+    fn c04_t_kmer_int_dna_k7 [4] { kmer_int::<Dna, 7>(&oracle::DNA); }
+    fn c04_t_kmer_int_dna_k8 [4] { kmer_int::<Dna, 8>(&oracle::DNA); }
+    fn c04_t_kmer_int_dna_k9 [4] { kmer_int::<Dna, 9>(&oracle::DNA); }
+    fn c04_t_kmer_int_dna_k10 [4] { kmer_int::<Dna, 10>(&oracle::DNA); }
+    fn c04_t_kmer_int_dna_k11 [4] { kmer_int::<Dna, 11>(&oracle::DNA); }
+    fn c04_t_kmer_int_dna_k12 [4] { kmer_int::<Dna, 12>(&oracle::DNA); }
+    fn c04_t_kmer_int_dna_k13 [4] { kmer_int::<Dna, 13>(&oracle::DNA); }
+    fn c04_t_kmer_int_dna_k14 [4] { kmer_int::<Dna, 14>(&oracle::DNA); }
+    fn c04_t_kmer_int_dna_k15 [4] { kmer_int::<Dna, 15>(&oracle::DNA); }
+    fn c04_t_kmer_int_dna_k16 [4] { kmer_int::<Dna, 16>(&oracle::DNA); }
+    fn c04_t_kmer_int_dna_k17 [4] { kmer_int::<Dna, 17>(&oracle::DNA); }
+    fn c04_t_kmer_int_dna_k18 [4] { kmer_int::<Dna, 18>(&oracle::DNA); }
+    fn c04_t_kmer_int_dna_k19 [4] { kmer_int::<Dna, 19>(&oracle::DNA); }
+    fn c04_t_kmer_int_dna_k20 [4] { kmer_int::<Dna, 20>(&oracle::DNA); }
+    fn c04_t_kmer_int_dna_k21 [4] { kmer_int::<Dna, 21>(&oracle::DNA); }
+    fn c04_t_kmer_int_dna_k22 [4] { kmer_int::<Dna, 22>(&oracle::DNA); }
+    fn c04_t_kmer_int_dna_k23 [4] { kmer_int::<Dna, 23>(&oracle::DNA); }
+    fn c04_t_kmer_int_dna_k24 [4] { kmer_int::<Dna, 24>(&oracle::DNA); }
+    fn c04_t_kmer_int_dna_k25 [4] { kmer_int::<Dna, 25>(&oracle::DNA); }
+    fn c04_t_kmer_int_dna_k26 [4] { kmer_int::<Dna, 26>(&oracle::DNA); }
+    fn c04_t_kmer_int_dna_k27 [4] { kmer_int::<Dna, 27>(&oracle::DNA); }
+    fn c04_t_kmer_int_dna_k28 [4] { kmer_int::<Dna, 28>(&oracle::DNA); }
+    fn c04_t_kmer_int_dna_k29 [4] { kmer_int::<Dna, 29>(&oracle::DNA); }
+    fn c04_t_kmer_int_dna_k30 [4] { kmer_int::<Dna, 30>(&oracle::DNA); }
+    fn c04_t_kmer_int_iupac_k1 [4] { kmer_int::<Iupac, 1>(&oracle::IUPAC); }
+    fn c04_t_kmer_int_iupac_k2 [4] { kmer_int::<Iupac, 2>(&oracle::IUPAC); }
+    fn c04_t_kmer_int_iupac_k3 [4] { kmer_int::<Iupac, 3>(&oracle::IUPAC); }
+    fn c04_t_kmer_int_iupac_k4 [4] { kmer_int::<Iupac, 4>(&oracle::IUPAC); }
+    fn c04_t_kmer_int_iupac_k5 [4] { kmer_int::<Iupac, 5>(&oracle::IUPAC); }
+    fn c04_t_kmer_int_iupac_k6 [4] { kmer_int::<Iupac, 6>(&oracle::IUPAC); }
+    fn c04_t_kmer_int_iupac_k7 [4] { kmer_int::<Iupac, 7>(&oracle::IUPAC); }
+    fn c04_t_kmer_int_iupac_k8 [4] { kmer_int::<Iupac, 8>(&oracle::IUPAC); }
+    fn c04_t_kmer_int_iupac_k9 [4] { kmer_int::<Iupac, 9>(&oracle::IUPAC); }
+    fn c04_t_kmer_int_iupac_k10 [4] { kmer_int::<Iupac, 10>(&oracle::IUPAC); }
+    fn c04_t_kmer_int_iupac_k11 [4] { kmer_int::<Iupac, 11>(&oracle::IUPAC); }
+    fn c04_t_kmer_int_iupac_k12 [4] { kmer_int::<Iupac, 12>(&oracle::IUPAC); }
+    fn c04_t_kmer_int_iupac_k13 [4] { kmer_int::<Iupac, 13>(&oracle::IUPAC); }
+    fn c04_t_kmer_int_iupac_k14 [4] { kmer_int::<Iupac, 14>(&oracle::IUPAC); }
+    fn c04_t_kmer_int_iupac_k15 [4] { kmer_int::<Iupac, 15>(&oracle::IUPAC); }
+    fn c04_t_kmer_int_amino_k1 [4] { kmer_int::<Amino, 1>(&oracle::AMINO); }
+    fn c04_t_kmer_int_amino_k2 [4] { kmer_int::<Amino, 2>(&oracle::AMINO); }
+    fn c04_t_kmer_int_amino_k4 [4] { kmer_int::<Amino, 4>(&oracle::AMINO); }
+    fn c04_t_kmer_int_amino_k5 [4] { kmer_int::<Amino, 5>(&oracle::AMINO); }
+    fn c04_t_kmer_int_amino_k6 [4] { kmer_int::<Amino, 6>(&oracle::AMINO); }
+    fn c04_t_kmer_int_amino_k7 [4] { kmer_int::<Amino, 7>(&oracle::AMINO); }
+    fn c04_t_kmer_int_amino_k8 [4] { kmer_int::<Amino, 8>(&oracle::AMINO); }
+    fn c04_t_kmer_int_amino_k9 [4] { kmer_int::<Amino, 9>(&oracle::AMINO); }
     fn c04_q_kmer_int_u64 [4] {
         let v = any_u64();
         let k = Kmer::<Dna, 32, u64>::from(v);
